@@ -1318,6 +1318,8 @@ class Interp:
         if isinstance(a, LibRef) or isinstance(b, LibRef):
             # e.g. path / "name"
             return Opaque("path")
+        if op == "Div" and isinstance(a, Obj) and a.cls.name in ("Path", "FilePath"):
+            return Opaque("path")
         if isinstance(a, Opaque) or isinstance(b, Opaque):
             return Opaque("derived")
         try:
